@@ -733,6 +733,132 @@ def check_sequences(ctx, corr):
             return
     corr.extra['asm_text_functions_compared'] = len(specs)
 
+# ------------------------------------------------------------------ leg (b2): whole expression trees, instruction text
+
+LITSUF = {'i32': '', 'i64': 'L', 'u32': 'U', 'u64': 'UL'}
+
+def tie_lit(rng):
+    """a literal that is a literal in C too (type int / long / unsigned / unsigned long by its suffix and value)"""
+    t = rng.choice(['i32', 'i32', 'i64', 'u32', 'u64'])
+    hi = {'i32': (1 << 31) - 1, 'i64': (1 << 63) - 1, 'u32': (1 << 32) - 1, 'u64': (1 << 64) - 1}[t]
+    v = rng.choice([0, 1, 2, 3, 5, 7, 31, 255, 256, 65535, hi, hi - 1, hi // 2 + 1, rng.randint(0, hi)])
+    return ('L', t, min(v, hi))
+
+def tie_c(e):
+    k = e[0]
+    if k == 'L':
+        return f'{e[2]}{LITSUF[e[1]]}'
+    if k == 'V':
+        return f'v{e[1]}'
+    if k == 'U':
+        return f'({CUN[e[1]]}({tie_c(e[2])}))'
+    if k == 'B':
+        return f'({tie_c(e[2])} {CBIN[e[1]]} {tie_c(e[3])})'
+    if k == 'CAST':
+        return f'(({CNAME[e[1]]}){tie_c(e[2])})'
+    raise ValueError(e)
+
+def gen_tie(rng, depth, n):
+    if depth == 0 or rng.random() < 0.1:
+        return ('V', rng.randrange(n)) if rng.random() < 0.7 else tie_lit(rng)
+    x = rng.random()
+    sub = lambda: gen_tie(rng, depth - 1, n)
+    if x < 0.6:
+        return ('B', rng.choice(BINOPS), sub(), sub())
+    if x < 0.8:
+        return ('U', rng.choice(UNOPS), sub())
+    return ('CAST', rng.choice(TYS), sub())
+
+def body_instrs(lines):
+    out = []
+    for l in lines:
+        for part in l.split(';'):
+            part = part.strip()
+            if part:
+                out.append(part)
+    return out
+
+def push_depth(ins):
+    d = m = 0
+    for i in ins:
+        if i.startswith('push '):
+            d += 1
+            m = max(m, d)
+        elif i.startswith('pop '):
+            d -= 1
+    return m
+
+def check_compile(ctx, corr, N):
+    """Model/C01Expr `compileE` (the object of theorem C01_value) against gen_expr: `R f(T0 v0, ..) { return EXPR; }` for
+    generated pure expression nests; the instructions between the prologue and `jmp .L.return.f` must be exactly the ones
+    `drv_c01 compile` prints for `(R)EXPR`, and the deepest push nesting must equal `depthE`."""
+    rng = ctx.rng
+    cases, src = [], ''
+    fixed = [(['i8', 'u32', 'bool'], 'i64', ('B', 'gt', ('B', 'add', ('V', 0), ('B', 'mul', ('V', 1), ('L', 'i32', 2))),
+                                             ('B', 'sub', ('U', 'neg', ('CAST', 'i64', ('L', 'i32', 5))), ('V', 0))))]
+    for op in BINOPS:          # every operator once more with a nested operand on each side, operands of unequal types
+        fixed.append((['u8', 'i64', 'i16'], 'i32', ('B', op, ('B', 'add', ('V', 0), ('V', 2)), ('B', 'bxor', ('V', 1), ('V', 2)))))
+        fixed.append((['u32', 'i32', 'bool'], 'u64', ('B', op, ('V', 2), ('B', op, ('V', 0), ('V', 1)))))
+    for k in range(N):
+        if k < len(fixed):
+            tys, ret, e = fixed[k]
+        else:
+            n = rng.randrange(1, 7)
+            tys = [rng.choice(TYS) for _ in range(n)]
+            ret = rng.choice(TYS)
+            e = gen_tie(rng, rng.randrange(1, 6), n)
+        name = f'c{k}'
+        params = ', '.join(f'{CNAME[t]} v{i}' for i, t in enumerate(tys))
+        src += f'{CNAME[ret]} {name}({params}) {{ return {tie_c(e)}; }}\n'
+        cases.append((name, tys, ret, e))
+    path = os.path.join(ctx.scratch, 'tie.c')
+    open(path, 'w').write(src)
+    rc_, asm, err = sh([ctx.cc, '-S', '-o', '-', path], timeout=300)
+    if rc_ != 0:
+        corr.violations.append({'what': 'chibicc -S fails on functions returning a pure integer expression', 'input': src[:600],
+                                'expected': 'compiles', 'got': err[-300:]})
+        return
+    req, live = '', []
+    for name, tys, ret, e in cases:
+        lines = fn_text(asm, name)
+        if lines is None or len(lines) < 4 + len(tys):
+            corr.disagreements.append({'kind': 'asm-text', 'spec': name, 'note': 'function not found in chibicc -S output'})
+            return
+        offs = []
+        for l in lines[4:4 + len(tys)]:
+            mm = re.fullmatch(r'\s*mov %\w+, (-?\d+)\(%rbp\)', l)
+            if not mm:
+                corr.disagreements.append({'kind': 'asm-text', 'spec': name, 'note': 'prologue of unknown shape: ' + l})
+                return
+            offs.append(mm.group(1))
+        req += f"{','.join(tys)} {','.join(offs)} | CAST {ret} {rp(e)}\n"
+        live.append((name, tys, ret, e, body_instrs(lines[4 + len(tys):])))
+    model = ctx.driver('compile', req).splitlines()
+    if len(model) != len(live):
+        corr.disagreements.append({'kind': 'driver', 'note': f'drv_c01 compile answered {len(model)} lines for {len(live)} expressions'})
+        return
+    for (name, tys, ret, e, got), m in zip(live, model):
+        corr.count('compile-tie')
+        corr.evaluations += 1
+        ctext = [l for l in src.splitlines() if f' {name}(' in l][0]
+        w = m.split(' ', 3)
+        if w[0] != 'ok' or len(w) < 4:
+            corr.disagreements.append({'kind': 'asm-text', 'c': ctext, 'note': 'compileE does not handle a pure expression: ' + m[:80]})
+            return
+        want = [] if w[3] == 'empty' else w[3].split(';;')
+        if len(got) > 12:
+            corr.nontrivial.add('tie:' + hashlib.sha1(ctext.encode()).hexdigest())
+        if got != want:
+            j = next((i for i in range(min(len(got), len(want))) if got[i] != want[i]), min(len(got), len(want)))
+            corr.disagreements.append({'kind': 'asm-text', 'c': ctext, 'first_difference_at': j, 'chibicc': got[j:j + 4],
+                                       'model': want[j:j + 4], 'test': {'ctx': 'ret', 'T': ret, 'tys': tys, 'vals': [1] * len(tys), 'prefix': rp(e)},
+                                       'note': 'Model/C01Expr compileE (the object of C01_value) does not print what chibicc -S prints'})
+            return
+        if push_depth(got) != int(w[2]):
+            corr.disagreements.append({'kind': 'asm-text', 'c': ctext, 'note': f'stack slots: chibicc nests push {push_depth(got)} deep, depthE = {w[2]}'})
+            return
+    corr.extra['expression_trees_compared_with_chibicc_S'] = len(live)
+
 # ------------------------------------------------------------------ leg (c): X86 model vs CPU
 
 REGVALS = [0, 1, 2, 3, 5, 7, 8, 15, 16, 31, 32, 33, 63, 64, 65, 0x7f, 0x80, 0x81, 0xff, 0x100, 0x7fff, 0x8000, 0xffff, 0x10000,
@@ -910,6 +1036,8 @@ def correspond(ctx, corr):
                  'one-operator functions against the model; every modelled instruction sequence against the host CPU.')
     known_witness(ctx, corr)
     check_sequences(ctx, corr)
+    if not corr.disagreements:
+        check_compile(ctx, corr, 700 if not ctx.thorough else 12000)
     check_cpu(ctx, corr, 60 if not ctx.thorough else 1500)
     if corr.disagreements:
         return
